@@ -45,7 +45,12 @@ INITS = [{'X': ['a', 'b'], 'Y': []}, {'X': ['a'], 'Y': []}]
 
 
 def gen_kind_of(kind):
-    return 'nested' if kind == 'nested' else 'full'
+    return kind if kind in ('nested', 'dproc') else 'full'
+
+
+# the steps a compartment of each kind holds
+STEPS_OF = {'full': ('d0', 's1', 's2'), 'nested': ('d0', 's1', 's2'),
+            'dproc': ('d0',), 'nos2': ('d0', 's1')}
 
 
 def world(init, history, issuer, kind, ts_of, op_first, horizon):
@@ -68,6 +73,19 @@ def world(init, history, issuer, kind, ts_of, op_first, horizon):
              ('op2', spec['processes']['op2'])] +
             [(k, v) for k, v in spec['processes'].items()
              if k not in ('op', 'op2')])
+    if kind == 'nested':
+        # the flow steps' outputs stay declared (by the operators' glob
+        # sub-schema) when a sub-compartment is deleted, so that a rebuilt
+        # engine is given them too
+        for part in ('processes', 'steps'):
+            for name in ('op', 'op2'):
+                o = spec[part].get(name)
+                if o:
+                    for c in st.CONTAINERS:
+                        for out in ('o_s1', 'o_s2'):
+                            o['schema'][c]['*'][out] = {
+                                '_default': -1, '_updater': 'set',
+                                '_emit': True}
     spec['entry'] = 'composite'
     spec['script'] = [('update', horizon)]
     return spec
@@ -125,6 +143,19 @@ def busy_move(history, per_op):
     return False
 
 
+def vacated_and_generated(history):
+    """True if one update moves a compartment away and generates its key
+    anew (known finding K9: the engine registers the additions of an
+    update first and unregisters everything below the move's source
+    afterwards, so the new compartment is in the hierarchy but is never
+    run)."""
+    for op in history:
+        if op[0] == 'pair' and op[1][0] in ('mov', 'movupd') and \
+                op[2][0] == 'gen' and op[1][1:3] == op[2][1:3]:
+            return True
+    return False
+
+
 def expected_schedule(init, history, issuer, kind, ts_of, horizon):
     """Reference schedule from the reference hierarchy.
 
@@ -173,13 +204,19 @@ def expected_schedule(init, history, issuer, kind, ts_of, horizon):
             names_after = after.t[c]
             names_before = before.t[c]
             for k, comp in names_after.items():
-                if comp['inner'] not in ('full', 'nested'):
+                if comp['inner'] not in STEPS_OF:
                     continue
                 cid = id(comp['cell'])
                 existed = any(id(x['cell']) == cid and kk == k
                               for kk, x in names_before.items()) \
                     if t > 0 else True
-                for s in ('d0', 's1', 's2'):
+                if issuer == 'step' and 0 < t <= last and existed and \
+                        comp['inner'] == 'nos2' and \
+                        names_before[k]['inner'] == 'nested':
+                    # its last flow step is deleted in this very phase: it
+                    # may have had its turn before
+                    runs[(c, k, 's2')] = (0, 1)
+                for s in STEPS_OF[comp['inner']]:
                     if issuer == 'process' or t == 0 or t > last:
                         runs[(c, k, s)] = 1
                     else:
@@ -197,7 +234,7 @@ def expected_schedule(init, history, issuer, kind, ts_of, horizon):
                 # compartments removed in this phase: the deriver and the
                 # first layer still ran, the later layer must not
                 for k, comp in names_before.items():
-                    if comp['inner'] not in ('full', 'nested'):
+                    if comp['inner'] not in STEPS_OF:
                         continue
                     cid = id(comp['cell'])
                     still = any(id(x['cell']) == cid and kk == k
@@ -210,8 +247,9 @@ def expected_schedule(init, history, issuer, kind, ts_of, horizon):
                         continue
                     if not still:
                         runs[(c, k, 'd0')] = 1
-                        runs[(c, k, 's1')] = 1
-                        runs[(c, k, 's2')] = 0
+                        if 's1' in STEPS_OF[comp['inner']]:
+                            runs[(c, k, 's1')] = 1
+                            runs[(c, k, 's2')] = 0
         step_runs[t] = runs
     return proc_inv, step_runs, models
 
@@ -241,6 +279,7 @@ def run_history(job, acc):
         init, history, issuer, kind, ts_of, horizon)
     status, per_op = victim_status(history, issuer, ts_of, models)
     k2 = busy_move(history, per_op)
+    k9 = vacated_and_generated(history)
     names = '+'.join(o[0] if o[0] != 'pair' else
                      'pair(' + ','.join(x[0] for x in o[1:]) + ')'
                      for o in history)
@@ -294,6 +333,8 @@ def run_history(job, acc):
         fp = f'{kind_}:{opname}:{issuer}:{status}'
         if k2:
             fp = 'schedule-after-move-of-busy-process'
+        if k9 and missing and not extra:
+            fp = 'generated-under-key-vacated-by-move-in-same-update'
         V('C10.schedule', fp,
           f'history {history} ({issuer}, ts {ts_pair}): invocations '
           f'missing {missing[:4]} extra {extra[:4]}')
@@ -331,15 +372,15 @@ def run_history(job, acc):
             continue
         for c in st.CONTAINERS:
             for k, comp in m.t[c].items():
-                if comp['inner'] not in ('full', 'nested'):
+                if comp['inner'] not in STEPS_OF:
                     continue
                 if issuer == 'step' and comp['born'] == t and t > 0:
                     continue       # created in this phase: runs next time
                 node = r['snapshot'].get(c, {}).get(k)
                 if not isinstance(node, dict):
                     continue
-                outs = (node.get('o_d0'), node.get('o_s1'),
-                        node.get('o_s2'))
+                outs = tuple(node.get(f'o_{s}')
+                             for s in STEPS_OF[comp['inner']])
                 touched_now = issuer == 'step' and 0 < int(t) <= len(
                     history) and (c, k) in models[int(t) - 1].footprint(
                         history[int(t) - 1])
@@ -361,6 +402,11 @@ def run_history(job, acc):
                  'steps': eng.state.get_steps(),
                  'flow': eng.state.get_flow(),
                  'topology': eng.state.get_topology()}
+    if kind == 'dproc':
+        # a legacy deriver may be listed under 'processes' (where it was
+        # given) or under 'steps' (where the store reports it)
+        pub = dict(pub, **dict(zip(('processes', 'steps'), _steps_apart(
+            pub['processes'], pub['steps']))))
     for part in pub:
         a, b = prune(render(pub[part])), prune(render(fromstore[part] or {}))
         if part == 'flow':
@@ -375,6 +421,10 @@ def run_history(job, acc):
             return
     comp = getattr(eng, '_vmc_composite', None)
     if comp is not None:
+        comp = {part: comp[part] for part in pub}
+        if kind == 'dproc':
+            comp['processes'], comp['steps'] = _steps_apart(
+                comp['processes'], comp['steps'])
         for part in pub:
             a = _drop_empty_dicts(render(comp[part]))
             b = _drop_empty_dicts(render(pub[part]))
@@ -417,6 +467,41 @@ def run_history(job, acc):
         acc.sample({'history': history, 'issuer': issuer, 'ts': ts_pair,
                     'victims': status,
                     'process_invocations': sorted(map(str, proc_inv))[:8]})
+
+
+def _steps_apart(processes, steps):
+    """(processes without the ones whose is_step() is true, steps plus
+    those)."""
+    def split(tree):
+        procs, stps = {}, {}
+        for k, v in (tree or {}).items():
+            if isinstance(v, dict):
+                p, s_ = split(v)
+                if p:
+                    procs[k] = p
+                if s_:
+                    stps[k] = s_
+            elif isinstance(v, Process) and v.is_step():
+                stps[k] = v
+            else:
+                procs[k] = v
+        return procs, stps
+
+    def merge(a, b):
+        out = dict(a)
+        for k, v in b.items():
+            if isinstance(v, dict) and isinstance(out.get(k), dict):
+                out[k] = merge(out[k], v)
+            else:
+                out[k] = v
+        return out
+    p, moved = split(processes)
+    return p, merge(_plain(steps), moved)
+
+
+def _plain(tree):
+    return {k: (_plain(v) if isinstance(v, dict) else v)
+            for k, v in (tree or {}).items()}
 
 
 def _drop_empty_dicts(tree):
@@ -537,16 +622,21 @@ def jobs(ctx):
                 out.append(('bare', tick, ts, issuer))
     depth = BOUNDS[ctx.tier]['depth']
     # operations issued from inside the compartments (vmc.agents)
-    out += [('agents',) + j for j in agents.jobs(depth)]
+    out += [('agents',) + j for j in agents.jobs(depth, half=ctx.quick)]
     for init_i, init in enumerate(INITS):
         for issuer in ('step', 'process'):
-            for kind in ('full', 'proc', 'nested'):
+            for kind in ('full', 'proc', 'nested', 'dproc'):
                 d = depth if kind == 'full' or not ctx.quick else 1
+                pair_levels = 2 if d <= 2 else 1
+                if kind == 'nested' and ctx.quick:
+                    # two operations (divide, then delete inside one
+                    # daughter), single operations only
+                    d, pair_levels = 2, 0
                 hists, seen, trans = st.enumerate_histories(
                     init, kind, d, with_pairs=True,
-                    pair_levels=2 if d <= 2 else 1,
+                    pair_levels=pair_levels,
                     proc_issuer=False, gen_kind=gen_kind_of(kind),
-                    with_regen=True)
+                    with_regen=True, with_delsub=(kind == 'nested'))
                 ts_pairs = ((1, 1), (3, 1)) if ctx.quick else (
                     (1, 1), (3, 1), (1, 3), (2, 1))
                 for h in hists:
